@@ -9,6 +9,7 @@ use crate::world::{Op, Run, Step, INLINE};
 pub struct ShrinkOpts {
     pub drop_tasks: bool,
     pub drop_players: bool,
+    pub narrow_scopes: bool,
     pub max_candidates: usize,
 }
 
@@ -182,6 +183,40 @@ pub fn shrink_run(mut run: Run, fails: &dyn Fn(&Run) -> bool, opts: ShrinkOpts) 
                 if try_candidate(&c, &mut tried) {
                     run = c;
                     progress = true;
+                }
+            }
+        }
+        // 6b. narrow scopes in position-index space
+        if opts.narrow_scopes {
+            use crate::cards::{is_valid_pos, pos_from_index, pos_index};
+            for t in 0..run.specs.len() {
+                loop {
+                    let Some((f, to)) = run.specs[t].scope else { break };
+                    if !is_valid_pos(f) || !is_valid_pos(to) || f >= to {
+                        break;
+                    }
+                    let (fi, ti) = (pos_index(f), pos_index(to));
+                    if ti - fi <= 1 {
+                        break;
+                    }
+                    let mid = (fi + ti) / 2;
+                    let mut done = false;
+                    for (nf, nt) in [(mid, ti), (fi, mid), (fi + 1, ti), (fi, ti - 1)] {
+                        if nf >= nt || (nf, nt) == (fi, ti) {
+                            continue;
+                        }
+                        let mut c = run.clone();
+                        c.specs[t].scope = Some((pos_from_index(nf), pos_from_index(nt)));
+                        if try_candidate(&c, &mut tried) {
+                            run = c;
+                            progress = true;
+                            done = true;
+                            break;
+                        }
+                    }
+                    if !done {
+                        break;
+                    }
                 }
             }
         }
